@@ -328,6 +328,27 @@ class SymNP(types.ModuleType):
                 return False
         return True
 
+    def isclose(self, a, b, rtol=1e-05, atol=1e-08, **kw):
+        if not (active() and (is_sym(a) or is_sym(b))):
+            return _np.isclose(a, b, rtol, atol, **kw)
+        scalar = not isinstance(a, _np.ndarray) and not isinstance(
+            b, _np.ndarray) and not isinstance(a, (list, tuple)) and \
+            not isinstance(b, (list, tuple))
+        A, B = _np.broadcast_arrays(_np.asarray(a, dtype=object),
+                                    _np.asarray(b, dtype=object))
+        out = _np.empty(A.shape, dtype=object)
+        for idx in _np.ndindex(*A.shape):
+            x, y = A[idx], B[idx]
+            out[idx] = abs(x - y) <= atol + rtol * abs(y)
+        if scalar or out.ndim == 0:
+            return out[()]
+        return out
+
+    def isfinite(self, a):
+        if active() and is_sym(a):
+            return elementwise(lambda e: True, a)
+        return _np.isfinite(a)
+
     # ---- element-wise math ------------------------------------------------------
     def real(self, a):
         if active() and is_sym(a):
